@@ -155,3 +155,199 @@ pub async fn recv_until_pending(sim: &mut Sim, s: SockId, max: usize) -> Result<
     }
     Ok(out)
 }
+
+/// Behavioural check that an admitted peer (already attached over `link`, registered as `id`)
+/// is registered exactly once: inbound messages are each delivered once, outbound traffic
+/// reaches it exactly as often as the socket type's distribution rule says. `other` is a second
+/// healthy peer of the same socket (attached by the caller) used for rotation checks.
+pub async fn registered_exactly_once(sim: &mut Sim, s: SockId, link: &Link, id: &[u8], other: Option<(&Link, &[u8])>) -> Result<(), String> {
+    let kind = sim.kind(s);
+    let base = link.lib_messages_prefix().map(|x| x.0.len()).map_err(|e| format!("peer wire: {}", e))?;
+    let obase = match other {
+        Some((ol, _)) => ol.lib_messages_prefix().map(|x| x.0.len()).map_err(|e| format!("other peer wire: {}", e))?,
+        None => 0,
+    };
+    // ---- inbound: two tagged messages, each must come out exactly once
+    if kind.fair_queue_recv() {
+        let wires: Vec<Frames> = (0..2)
+            .map(|i| {
+                let t = format!("in-{}", i).into_bytes();
+                match kind {
+                    Kind::Rep => vec![vec![], t],
+                    Kind::XPub => {
+                        let mut f = vec![1u8];
+                        f.extend_from_slice(&t);
+                        vec![f]
+                    }
+                    _ => vec![t],
+                }
+            })
+            .collect();
+        let mut got: Vec<Frames> = vec![];
+        if kind == Kind::Rep {
+            // lock-step: request, reply, request, reply
+            for w in &wires {
+                link.raw_send_now(w);
+                let res = recv_until_pending(sim, s, 4).await?;
+                for r in res {
+                    got.push(r.map_err(|e| format!("recv error {}", e))?);
+                }
+                let a = sim.send(s, &[b"rep".to_vec()]);
+                match sim.run(a).await {
+                    Ok(Some(Out::Send(Ok(())))) => {}
+                    o => return Err(format!("REP reply failed: {:?}", o)),
+                }
+            }
+            let msgs = link.lib_messages().map_err(|e| format!("peer wire: {}", e))?;
+            if msgs.len() != base + 2 || msgs[base..].iter().any(|m| m != &vec![vec![], b"rep".to_vec()]) {
+                return Err(format!("REP replies on the requesting connection: {} messages (expected 2 replies)", msgs.len() - base));
+            }
+            if let Some((ol, _)) = other {
+                let n = ol.lib_messages_prefix().map(|x| x.0.len()).unwrap_or(0);
+                if n != obase {
+                    return Err("a REP reply went to a connection that did not send the request".into());
+                }
+            }
+        } else {
+            for w in &wires {
+                link.raw_send_now(w);
+            }
+            let res = recv_until_pending(sim, s, 6).await?;
+            for r in res {
+                got.push(r.map_err(|e| format!("recv error {}", e))?);
+            }
+        }
+        let want: Vec<Frames> = wires
+            .iter()
+            .map(|w| match kind {
+                Kind::Rep => w[1..].to_vec(),
+                Kind::Router => {
+                    let mut m = vec![id.to_vec()];
+                    m.extend(w.clone());
+                    m
+                }
+                _ => w.clone(),
+            })
+            .collect();
+        if got != want {
+            return Err(format!(
+                "inbound: peer sent 2 messages, recv returned {} results {:?}",
+                got.len(),
+                got.iter().map(|m| m.iter().map(|f| String::from_utf8_lossy(f).chars().take(12).collect::<String>()).collect::<Vec<_>>()).collect::<Vec<_>>()
+            ));
+        }
+    }
+    // ---- outbound
+    match kind {
+        Kind::Push | Kind::Dealer => {
+            let n_peers = if other.is_some() { 2 } else { 1 };
+            for i in 0..4 {
+                let a = sim.send(s, &[format!("out-{}", i).into_bytes()]);
+                match sim.run(a).await {
+                    Ok(Some(Out::Send(Ok(())))) => {}
+                    o => return Err(format!("send {} failed: {:?}", i, o)),
+                }
+            }
+            let mine = link.lib_messages().map_err(|e| format!("peer wire: {}", e))?.len() - base;
+            let theirs = match other {
+                Some((ol, _)) => ol.lib_messages().map_err(|e| format!("other wire: {}", e))?.len() - obase,
+                None => 0,
+            };
+            if mine != 4 / n_peers || theirs != 4 - 4 / n_peers {
+                return Err(format!("4 sends over {} peers: this peer got {}, the other {} (each registered once means an even rotation)", n_peers, mine, theirs));
+            }
+        }
+        Kind::Req => {
+            // 2 requests per peer; every request is answered by whoever got it
+            let links: Vec<&Link> = match other {
+                Some((ol, _)) => vec![link, ol],
+                None => vec![link],
+            };
+            let mut counts = vec![0usize; links.len()];
+            let mut seen: Vec<usize> = links.iter().map(|l| l.lib_messages_prefix().map(|x| x.0.len()).unwrap_or(0)).collect();
+            for i in 0..2 * links.len() {
+                let a = sim.send(s, &[format!("q-{}", i).into_bytes()]);
+                match sim.run(a).await {
+                    Ok(Some(Out::Send(Ok(())))) => {}
+                    o => return Err(format!("REQ send {} failed: {:?}", i, o)),
+                }
+                let mut who = None;
+                for (j, l) in links.iter().enumerate() {
+                    let n = l.lib_messages_prefix().map(|x| x.0.len()).unwrap_or(0);
+                    if n > seen[j] {
+                        seen[j] = n;
+                        counts[j] += 1;
+                        who = Some(j);
+                    }
+                }
+                let Some(j) = who else { return Err(format!("REQ request {} reached no peer", i)) };
+                links[j].raw_send_now(&[vec![], format!("a-{}", i).into_bytes()]);
+                let r = sim.recv(s);
+                match sim.run(r).await {
+                    Ok(Some(Out::Recv(Ok(m)))) if m == vec![format!("a-{}", i).into_bytes()] => {}
+                    o => return Err(format!("REQ reply {} not returned: {:?}", i, o)),
+                }
+            }
+            if counts.iter().any(|c| *c != 2) {
+                return Err(format!("REQ rotation over {} peers delivered {:?} requests per peer (expected 2 each)", links.len(), counts));
+            }
+        }
+        Kind::Router => {
+            let a = sim.send(s, &[id.to_vec(), b"routed".to_vec()]);
+            match sim.run(a).await {
+                Ok(Some(Out::Send(Ok(())))) => {}
+                o => return Err(format!("ROUTER send to the peer's identity failed: {:?}", o)),
+            }
+            let msgs = link.lib_messages().map_err(|e| format!("peer wire: {}", e))?;
+            if msgs.len() != base + 1 || msgs[base] != vec![b"routed".to_vec()] {
+                return Err(format!("ROUTER send to the identity: peer's wire has {} new messages", msgs.len() - base));
+            }
+            if let Some((ol, _)) = other {
+                if ol.lib_messages_prefix().map(|x| x.0.len()).unwrap_or(0) != obase {
+                    return Err("ROUTER send also reached another peer".into());
+                }
+            }
+        }
+        Kind::Pub | Kind::XPub => {
+            // subscribe (this peer only), then publish: exactly one copy here, none elsewhere
+            link.raw_send_now(&[vec![1u8, b't']]);
+            sim.settle().await.map_err(|e| format!("{:?}", e))?;
+            if kind == Kind::XPub {
+                let res = recv_until_pending(sim, s, 4).await?;
+                if res.len() != 1 || res[0] != Ok(vec![vec![1u8, b't']]) {
+                    return Err(format!("XPUB recv of one subscription returned {} results", res.len()));
+                }
+            }
+            let a = sim.send(s, &[b"topic".to_vec(), b"body".to_vec()]);
+            match sim.run(a).await {
+                Ok(Some(Out::Send(Ok(())))) => {}
+                o => return Err(format!("publish failed: {:?}", o)),
+            }
+            let msgs = link.lib_messages().map_err(|e| format!("peer wire: {}", e))?;
+            if msgs.len() != base + 1 {
+                return Err(format!("subscriber received {} copies of one matching publish", msgs.len() - base));
+            }
+            if let Some((ol, _)) = other {
+                if ol.lib_messages_prefix().map(|x| x.0.len()).unwrap_or(0) != obase {
+                    return Err("a publish reached a peer that never subscribed".into());
+                }
+            }
+        }
+        Kind::Sub => {
+            let a = sim.subscribe(s, "news", true);
+            match sim.run(a).await {
+                Ok(Some(Out::Unit(Ok(())))) => {}
+                o => return Err(format!("subscribe failed: {:?}", o)),
+            }
+            let msgs = link.lib_messages().map_err(|e| format!("peer wire: {}", e))?;
+            let mut want = vec![1u8];
+            want.extend_from_slice(b"news");
+            let n = msgs[base..].iter().filter(|m| **m == vec![want.clone()]).count();
+            if n != 1 || msgs.len() != base + 1 {
+                return Err(format!("one subscribe call put {} messages on the peer's wire ({} of them the subscription)", msgs.len() - base, n));
+            }
+        }
+        Kind::Rep | Kind::Pull => {}
+    }
+    Ok(())
+}
